@@ -4,6 +4,7 @@
 -/
 import HctlModel.Proto
 import HctlModel.EvalProto
+import HctlModel.GlueProto
 open Hctl Hctl.Proto
 
 open Hctl.EvalProto (classOf decChars)
@@ -93,7 +94,9 @@ partial def loop (h : IO.FS.Stream) (st : EvalProto.DriverState) : IO Unit := do
       (← IO.getStdout).flush
       loop h st'
     | none =>
-      IO.println (handle l)
+      match Hctl.GlueProto.handle? l with
+      | some out => IO.println out
+      | none => IO.println (handle l)
       loop h st
 
 def main : IO Unit := do loop (← IO.getStdin) {}
